@@ -30,6 +30,7 @@ FIRST_CONTACT_R7 = {
     "C06-B": "C02 C03 C06 C08 C10", "C07-A": "C07", "C07-B": "C07", "C09-A": "C01 C08", "C09-B": "C13 C14", "C10-A": "C06", "C13-A": "C13", "C13-B": "C13 C14",
     "C14-A": "C13", "C15-A": "C01", "C17-B": "C17", "C18-B": "C02 C03 C06 C08 C10", "C19-A": "C13 C14", "C19-B": "C19", "C20-A": "C20",
 }
+FIRST_CONTACT_R8 = {"C01-A": "C01 C15", "C04-A": "C16", "C16-A": "C04 C05 C16"}
 FIRST_CONTACT_R5 = {
     "C01-A": "C01 C15", "C02-B": "C06", "C04-A": "C04 C16", "C05-A": "C05 C16", "C06-B": "C06", "C07-A": "C06 C07", "C07-B": "C07",
     "C08-A": "C02 C03 C06 C08", "C08-B": "C20", "C09-A": "C08", "C09-B": "C01", "C10-A": "C02 C10", "C11-A": "C11", "C12-A": "C20",
@@ -120,6 +121,9 @@ def main():
                 meta["false_alarms_at_first_contact"] = FIRST_CONTACT_R7.get("%s-%s" % (d, x), "").split()
                 if d == "C17":
                     meta["isolation_note"] = "the sub-agent reported having read the title lines of the earlier C17 seeds under /verif/seeded (it was told to use nothing from /verif); kept, with this note"
+            if ROUND == "r8":
+                meta["author"] = meta["author"].replace("a behaviour-preserving refactoring", "a behaviour-preserving change in the same functions, of the same size and flavour, as its breaking twin (%s-r8C)" % d)
+                meta["false_alarms_at_first_contact"] = FIRST_CONTACT_R8.get("%s-%s" % (d, x), "").split()
             if ROUND == "r6":
                 meta["author"] = meta["author"].replace("a behaviour-preserving refactoring", "a behaviour-preserving refactoring of the extract / move / wrap family (helpers, small classes, records, generator helpers)")
             if ROUND == "r5":
